@@ -91,9 +91,10 @@ def build(cfg):
     r_ = de.DiffRHS(rhs)
     if cfg.get("jac") == "user":
         r_.hook_jacobian_call(jac)
-    a = de.OdeSystem(r_, y0=y0, t=(dtype(t0), dtype(tf)), dt=dtype(cfg["dt0"]), rtol=dtype(cfg["tol"]), atol=dtype(cfg["tol"]), dense_output=bool(cfg["dense"]))
+    tf_cfg = (2 * t0 - tf) if cfg.get("against") else tf        # 'against': configured with the mirrored span, every integrate call names its target
+    a = de.OdeSystem(r_, y0=y0, t=(dtype(t0), dtype(tf_cfg)), dt=dtype(cfg["dt0"]), rtol=dtype(cfg["tol"]), atol=dtype(cfg["tol"]), dense_output=bool(cfg["dense"]))
     a.method = method_of(cfg["method"])
-    kw = dict(callback=[cb1, cb2, driver.Budget(20000)])
+    kw = dict(t=dtype(tf), callback=[cb1, cb2, driver.Budget(20000)])
     if cfg["evcb"]:
         kw["events"] = [ev1, ev2]
     else:
@@ -332,6 +333,8 @@ def configs(ctx):
                     if long_running and ctx.quick and not dense:
                         continue
                     out.append(dict(method=m, span=span, dt0=(0.2 if long_running else dt0), tol=tol, jac=jac, dense=dense, evcb=evcb))
+                    if m in ("RK4Solver", "RK45CKSolver") and dense and evcb:
+                        out.append(dict(method=m, span=span, dt0=dt0, tol=tol, jac=jac, dense=dense, evcb=evcb, against=True))
     return out
 
 
